@@ -784,6 +784,59 @@ def pub_work(chunk):
     return res
 
 
+FORCED_DRAWS = [0, 1, 2, 0x7FFFFFFF, 0x80000000, 0x80000001, 0xFFFFFFFF, 0x100000000, 1 << 63, (1 << 64) - 1]
+
+
+def forced_work(chunk):
+    """Two consecutive requests whose random draws are chosen through the RNG seam (boundary values, in every ordered pair whose
+    low 31 bits differ): the late reply to the first must not be taken for the reply to the second. (A random 31-bit collision
+    is excused elsewhere; with chosen draws a repeated id is the library's doing.)"""
+    res = common.Result()
+    mod, fast = drivers.subject()
+    force = getattr(fast, "_verif_rng_force", None)
+    for case in chunk:
+        if force is None:
+            res.count("forced_seam_absent")
+            continue
+        cfg = Cfg.from_desc(case["cfg"])
+        d1, d2 = case["draws"]
+        ex = Exec(cfg)
+        try:
+            force([d1, d1 ^ 0x5555])
+            e1 = ex.send()
+            force([d2, d2 ^ 0x3333])
+            e2 = ex.send()
+            force([])
+            res.count("forced_pairs")
+            res.count("impl_executions")
+            if e1 or e2:
+                res.violation("forced-draws/%s/send-failed" % cfg.name, "send failed with forced draws %#x, %#x: %r" % (d1, d2, e1 or e2), case)
+                continue
+            ex.deliver((1, 0, None))  # the reply to request 1 arrives while request 2 is outstanding
+            out = observed_kind(ex.recv())
+            res.outcome("forced:" + out[0])
+            if out[0] == "value":
+                r1, r2 = ex.reqs[1], ex.reqs[2]
+                res.violation(
+                    "forced-draws/%s/late reply to the previous request delivered" % cfg.name,
+                    "draws %#x then %#x: requests went out with request-ids %s and %s (msgIDs %s, %s); the reply to the first was delivered as the answer to the second"
+                    % (d1, d2, r1.request_id, r2.request_id, r1.msg_id, r2.msg_id),
+                    case,
+                )
+        finally:
+            force([])
+            ex.close()
+    return res
+
+
+def forced_cases(tier):
+    for cfg in (Cfg("v1"), Cfg("v2c"), Cfg("v3"), Cfg("v3", auth=2, priv=2)):
+        for d1 in FORCED_DRAWS:
+            for d2 in FORCED_DRAWS:
+                if (d1 & 0x7FFFFFFF) != (d2 & 0x7FFFFFFF):
+                    yield {"forced": True, "cfg": cfg.describe(), "draws": [d1, d2], "class": "forced-draws/%s" % cfg.name}
+
+
 def pub_cases(tier):
     G, N, B = "get", "getnext", "getbulk"
     if tier == "quick":
@@ -816,6 +869,9 @@ def pub_cases(tier):
 
 def replay(case):
     common.prepare_stage()
+    if case.get("forced"):
+        r = forced_work([case])
+        return {"problems": [v[1] for v in r["violations"]], "holds": not r["violations"]}
     if case.get("public"):
         ok, observed, expected, why = pub_case_holds(case, 0.6)
         return {"script": _fmt_script(case["script"]), "observed": observed, "expected": [sorted(e) for e in expected], "holds": ok, "why": why}
@@ -875,6 +931,7 @@ def run(tier):
             {"config": cfg.name, "requests": K, "deviations": D, "alphabet": "reduced" if reduced else "full", "states": n, "depth": depth}
         )
     rec.extra["bounds_completed"] = bounds
+    common.run_cases(rec, forced_work, list(forced_cases(tier)), chunk=24)
     pcases = list(pub_cases(tier))
     common.run_cases(rec, pub_work, pcases, chunk=12, nproc=48, timeout=600, case_timeout=60)
     rec.extra["public_client_scripts"] = {
